@@ -52,6 +52,11 @@ def gen(rng, broker, tier):
             "beh": [{"do": "raise" if rng.random() < 0.15 else "return", "dur_us": d}],
             "at_us": 0 if rng.random() < 0.8 else rng.randint(0, 3_000_000),
         })
+        if dur_profile in ("mixed", "long", "longer-than-fetch") and rng.random() < 0.12:
+            jobs[-1]["ttl_s"] = 1  # may expire while it waits for a free slot: turned away, neither started nor counted
+    if sum(1 for j in jobs if not j.get("ttl_s")) <= M:
+        for j in jobs:
+            j.pop("ttl_s", None)  # the backlog of messages which cannot expire stays larger than M
     return {
         "mode": "worker", "M": M, "tasks_limit": rng.choice([1, 2, 3, M, M + 1, 50, 1000]),
         "nq": nq, "jobs": jobs, "graceful_s": rng.choice([60.0, 60.0, 0.2, 0.02]),
@@ -121,7 +126,7 @@ async def _main_worker(sim, sc, out):
     if starts_in_run > M:
         out["violations"].append(violation(
             "overshoot", f"C10/{broker}/overshoot", M=M, B=B, starts=starts_in_run, tasks_limit=sc["tasks_limit"]))
-    avail_before_ret = len([j for j in sc["jobs"] if j.get("at_us", 0) == 0])
+    avail_before_ret = len([j for j in sc["jobs"] if j.get("at_us", 0) == 0 and not j.get("ttl_s")])
     if avail_before_ret >= M and ends_in_run < M:
         out["violations"].append(violation(
             "early-return", f"C10/{broker}/returned-before-M-finished", M=M, finished=ends_in_run, starts=starts_in_run))
@@ -134,7 +139,7 @@ async def _main_worker(sim, sc, out):
         ps = insp.get(jid, [])
         if jid in started:
             continue
-        if len(ps) != 1 or ps[0]["place"] not in ("waiting",):
+        if len(ps) != 1 or ps[0]["place"] not in (("waiting", "dead") if j.get("ttl_s") else ("waiting",)):
             out["violations"].append(violation(
                 "leftover-not-waiting", f"C10/{broker}/leftover/{place_summary(insp, jid)}", id=jid,
                 places=[p["place"] for p in ps]))
